@@ -177,6 +177,26 @@ func c06SingleWriter(p *core.Program, r *core.Report, t *types.Named) {
 			return true
 		})
 	}
+	// one channel to the socket: bytes written to the connection around the buffered writer overtake
+	// the frames still waiting in its buffer (order of delivery is no longer order of acceptance)
+	var direct []string
+	for _, fi := range p.MethodsOf(t) {
+		if fi.Decl.Body == nil {
+			continue
+		}
+		rn := recvName(fi)
+		ast.Inspect(fi.Decl.Body, func(n ast.Node) bool {
+			if call, ok := n.(*ast.CallExpr); ok {
+				s := strings.ReplaceAll(stripSpaces(types.ExprString(call.Fun)), rn+".", "")
+				if s == "conn.Write" {
+					direct = append(direct, fi.Obj.Name()+" at "+p.Pos(call.Pos()))
+				}
+			}
+			return true
+		})
+	}
+	r.Check(len(direct) == 0, "C06.single-writer", "net/oneway.OneWayTcpClient direct writes to conn", "-", "every byte goes through the buffered writer",
+		fmt.Sprintf("the connection is written directly, around the buffered writer (%v): such a frame overtakes the frames still in the buffer", direct))
 	okW := len(uniq(writers)) == 1 && writers[0] == "send"
 	if okW {
 		r.OK("C06.single-writer", "net/oneway.OneWayTcpClient writers of wr", "-", "only send()")
